@@ -955,6 +955,11 @@ fn replay_long(v: &serde_json::Value) -> Result<(), String> {
     long_case(v["kind"].as_u64().unwrap_or(0) as usize % LONG_KINDS.len(), v["n"].as_u64().unwrap_or(2300) as usize, v["seed"].as_u64().unwrap_or(0))
 }
 
+fn run_all_two_input_bursts(ctx: &crate::engine::Ctx, rec: &mut dyn FnMut(serde_json::Value, Info)) -> Result<(), (String, serde_json::Value)> {
+    let kinds: Vec<usize> = (0..super::longhist::KINDS.len()).collect();
+    super::longhist::run_bursts(ctx, rec, &kinds)
+}
+
 pub fn def() -> PropDef {
     PropDef {
         id: "C20",
@@ -964,6 +969,7 @@ pub fn def() -> PropDef {
             Box::new(Sub { name: "workloads", rule: "sequential == re-ordered sequential == concurrent, bit for bit", quick: 640, thorough: 6000, strategy: || boxed(workload_strategy()), check: check_workload }),
             Box::new(Sub { name: "fresh-process-orders", rule: "2..5 pool-free operations on generator-derived points (+-G multiplications through every path, decoding of +-G, serialization, group operations, pairing of +-generators, hashing, field operations) executed in two FRESH child processes in two different orders and in the long-lived checking process: every operation must return the same bits (exposes lazily initialised process-wide state that captures its first caller)", quick: 40, thorough: 1200, strategy: || boxed(proc_strategy()), check: check_proc }),
             Box::new(crate::engine::EnumSub { name: "long-histories", rule: "one worker thread sends N distinct arguments (X_0 + i G) through one operation (pairing with distinct G2 / G1 arguments, checked decoding, subgroup test, hashing, wNAF multiplication, prepare + Miller loop), N = 2300 / 4400 (quick) and 9000 / 70000 (thorough), then evaluates the first 24, the last 24 and every (N/40)-th argument again, forwards and backwards: same bits as the first time (a bounded cache that misbehaves once full, flushed or wrapped)", run: run_long, replay: replay_long, exhaustive: false }),
+            Box::new(crate::engine::EnumSub { name: "two-input-bursts", rule: super::longhist::BURST_RULE, run: run_all_two_input_bursts, replay: super::longhist::replay_burst, exhaustive: false }),
             Box::new(Sub { name: "bursts", rule: "4..16 barrier-released threads each repeat a list of 2..4 operations (G1/G2 prepare of a few shared points, pairings, multiplications, hashing, field and group operations) 24..96 times from different starting offsets; every single result must be bit-identical to the sequential reference (exposes check-then-use races on process-wide state, which need call density)", quick: 48, thorough: 1500, strategy: || boxed(burst_strategy()), check: check_burst }),
         ],
         assumptions: {
